@@ -10,9 +10,10 @@
 (***************************************************************************)
 EXTENDS TraceHll
 VARIABLES un,
-          ug      \* tier B: shadow gadget per union (HllUnionMech), only maintained when CheckDesign
+          ug,     \* tier B: shadow gadget per union (HllUnionMech), only maintained when CheckDesign
+          uoo     \* per union: a non-empty OUT-OF-ORDER sketch (a union result, possibly restored) was among its inputs since reset
 U == INSTANCE HllUnion WITH UIds <- {}, LgMaxKs <- {}, UCoupons <- {}, Inputs <- {}, UBigs <- {}
-tuvars == <<obj, l, hist, blob, sh, un, ug>>
+tuvars == <<obj, l, hist, blob, sh, un, ug, uoo>>
 SkUnchanged == UNCHANGED <<obj, hist, blob, sh>>
 
 (* ---------------- tier B: the union's gadget as the code keeps it ---------------- *)
@@ -60,10 +61,11 @@ UBoundsOK(r, o, hllmode) ==
   /\ Chk("C06:coupon-estimate", ~hllmode => LET n == Cardinality(o.fed) IN r.estF >= n /\ r.estF <= n + n \div 1000 + 1)
   /\ Chk("C06:empty-estimate", o.empty => r.estF = 0)
 
-TUBegin == TBegin /\ un' = <<>> /\ ug' = <<>>
+TUBegin == TBegin /\ un' = <<>> /\ ug' = <<>> /\ uoo' = <<>>
 TUNew == IsEvent("UNew") /\ LET e == Log[l] IN
           /\ U!UNew(e.u, e.lgmaxk, e.lgmaxk > DenseMaxLgK) /\ UScalars(e, un'[e.u]) /\ SkUnchanged
           /\ ug' = UgSet((e.u :> IF e.lgmaxk <= ShadowMaxLgK THEN G!EmptyList(e.lgmaxk) ELSE NoG) @@ ug) /\ GScalars(e, ug'[e.u])
+          /\ uoo' = (e.u :> FALSE) @@ uoo
 TUUpdate == IsEvent("UUpdate") /\ LET e == Log[l]  sv == obj[e.src]  o == un[e.u]
                                       \* an empty HLL-mode input: did the implementation lower its precision? (left open by the statement)
                                       counted == IF sv.empty THEN sv.mode = HLL /\ sv.lgK < U!LgStar(o) /\ e.lgk = sv.lgK
@@ -73,6 +75,7 @@ TUUpdate == IsEvent("UUpdate") /\ LET e == Log[l]  sv == obj[e.src]  o == un[e.u
                                              ELSE IF sv.big \/ sv.lgK > ShadowMaxLgK \/ ~Sup(sh[e.src]) THEN NoG   \* (results fed back: physical counters unknown)
                                              ELSE G!GUpdate(@, G!FromInput(sv), e.rvalue, sv.type = 8, un[e.u].lgMaxK)])
           /\ GScalars(e, ug'[e.u])
+          /\ uoo' = [uoo EXCEPT ![e.u] = @ \/ (Has(e, "srcOoo") /\ e.srcOoo /\ ~sv.empty)]
 TUItem == IsEvent("UItem") /\ LET e == Log[l] IN
           /\ U!UpdateItem(e.u, <<e.c[1], e.c[2]>>) /\ UScalars(e, un'[e.u]) /\ SkUnchanged
           \* While the union answers with its in-order (HIP) estimate, that estimate must stay consistent with the registers: an item
@@ -85,20 +88,23 @@ TUItem == IsEvent("UItem") /\ LET e == Log[l] IN
                (~h.ooo /\ ~h.oooAfter) =>
                  /\ Chk("union-hip-unchanged-without-register-change", ~raised => h.hipAfter = h.hipBefore)
                  /\ Chk("union-hip-increment-is-k/KxQ", raised => (h.hipBefore < h.hipAfter /\ h.ppb <= 1000))
-          /\ ug' = UgSet([ug EXCEPT ![e.u] = IF GSup(@) THEN G!CouponUpd(@, <<e.c[1], e.c[2]>>) ELSE @]) /\ GScalars(e, ug'[e.u])
+          /\ ug' = UgSet([ug EXCEPT ![e.u] = IF GSup(@) THEN G!CouponUpd(@, <<e.c[1], e.c[2]>>) ELSE @]) /\ GScalars(e, ug'[e.u]) /\ UNCHANGED uoo
 TUItemIgnored == IsEvent("UItemIgnored") /\ LET e == Log[l] IN
-          /\ U!UpdateIgnoredItem(e.u) /\ UScalars(e, un[e.u]) /\ SkUnchanged /\ UNCHANGED ug
+          /\ U!UpdateIgnoredItem(e.u) /\ UScalars(e, un[e.u]) /\ SkUnchanged /\ UNCHANGED <<ug, uoo>>
 TUReset == IsEvent("UReset") /\ LET e == Log[l] IN
           /\ U!UReset(e.u) /\ UScalars(e, un'[e.u]) /\ SkUnchanged
           /\ ug' = UgSet([ug EXCEPT ![e.u] = IF GSup(@) THEN G!GReset(@, un[e.u].lgMaxK) ELSE @]) /\ GScalars(e, ug'[e.u])
+          /\ uoo' = [uoo EXCEPT ![e.u] = FALSE]
 TUObs == IsEvent("UObs") /\ LET e == Log[l] IN
-          /\ U!Observe(e.u) /\ UScalars(e, un[e.u]) /\ SkUnchanged /\ UNCHANGED ug /\ GScalars(e, ug[e.u])
+          /\ U!Observe(e.u) /\ UScalars(e, un[e.u]) /\ SkUnchanged /\ UNCHANGED <<ug, uoo>> /\ GScalars(e, ug[e.u])
 TUEst == IsEvent("UEst") /\ LET e == Log[l]  o == un[e.u] IN
           /\ U!Observe(e.u) /\ UScalars(e, o)
           /\ Chk("C06:bounds", /\ e.lb[3] <= e.lb[2] /\ e.lb[2] <= e.lb[1] /\ e.lb[1] <= e.est
                                /\ e.est <= e.ub[1] /\ e.ub[1] <= e.ub[2] /\ e.ub[2] <= e.ub[3])
           /\ Chk("C06:empty-estimate", o.empty => e.estF = 0)
-          /\ SkUnchanged
+          /\ Chk("union-bounds-bracket-estimate", \A k \in 1..3 : e.lb[k] <= e.est /\ e.est <= e.ub[k])
+          /\ Chk("out-of-order-input-reports-composite-estimate", uoo[e.u] => e.est = e.cest)
+          /\ SkUnchanged /\ UNCHANGED uoo
           \* the estimate getters run check_rebuild_kxq_cur_min on the gadget
           /\ ug' = UgSet([ug EXCEPT ![e.u] = IF GSup(@) THEN G!GCheckRebuild(@) ELSE @]) /\ GScalars(e, ug'[e.u])
 \* a refused bound query on the union (NumStdDev outside 1..3); the gadget's deferred rebuild runs before the argument check
@@ -106,9 +112,9 @@ TUBadArg == IsEvent("BadArg") /\ LET e == Log[l] IN
           /\ Has(e, "u")
           /\ Chk("C06:invalid-num-std-dev-refused", e.threw)
           /\ U!Observe(e.u) /\ SkUnchanged
-          /\ ug' = UgSet([ug EXCEPT ![e.u] = IF GSup(@) THEN G!GCheckRebuild(@) ELSE @])
+          /\ ug' = UgSet([ug EXCEPT ![e.u] = IF GSup(@) THEN G!GCheckRebuild(@) ELSE @]) /\ UNCHANGED uoo
 \* get_result(type): ResultDef
-ResultChecks(e) == LET o == un[e.u]  r == e.r  lg == U!LgStar(o) IN
+ResultContent(e) == LET o == un[e.u]  r == e.r  lg == U!LgStar(o) IN
           /\ U!Observe(e.u) /\ UScalars(e, o)
           /\ Chk("result-type", r.type = e.type /\ r.typeApi = e.type)
           /\ Chk("result-lg_k", r.lgk = lg /\ r.lgkApi = lg)
@@ -129,8 +135,23 @@ ResultChecks(e) == LET o == un[e.u]  r == e.r  lg == U!LgStar(o) IN
                                                     ELSE {<<x - 1, r.regs[x]>> : x \in {y \in DOMAIN r.regs : r.regs[y] > 0}},
                                              coup |-> IF r.cmode = HLL THEN {} ELSE ToSet(r.coup)]))
           /\ UBoundsOK(r, o, r.cmode = HLL)
-          /\ (Has(r, "ph") => GResultOK(r.ph, e.type, ug[e.u])) /\ GScalars(e, ug[e.u])
-TUResult == IsEvent("UResult") /\ ResultChecks(Log[l]) /\ SkUnchanged /\ UNCHANGED ug
+          \* the bounds clause of C03 applied to union results; a union that received an out-of-order input answers with the
+          \* composite estimate (its HIP accumulator is meaningless)
+          /\ Chk("result-bounds-bracket-estimate", \A k \in 1..3 : r.lb[k] <= r.est /\ r.est <= r.ub[k])
+          /\ Chk("out-of-order-input-reports-composite-estimate", uoo[e.u] => r.est = r.cest)
+ResultChecks(e) == /\ ResultContent(e)
+                   /\ (Has(e.r, "ph") => GResultOK(e.r.ph, e.type, ug[e.u])) /\ GScalars(e, ug[e.u])
+TUResult == IsEvent("UResult") /\ ResultChecks(Log[l]) /\ SkUnchanged /\ UNCHANGED <<ug, uoo>>
+\* get_result in all three types, first from the union as it is, then from a copy of it on which get_composite_estimate() was
+\* called before: a result must not depend on its type or on whether an unrelated query was made earlier
+TUResults3 == IsEvent("UResults3") /\ LET e == Log[l] IN
+          /\ \A n \in DOMAIN e.rs : LET x == [u |-> e.u, type |-> e.rs[n].type, r |-> e.rs[n], lgk |-> e.lgk, empty |-> e.empty] IN
+               IF n <= 3 THEN ResultChecks(x) ELSE ResultContent(x)
+          /\ \A n, k \in DOMAIN e.rs : n < k => LET d == e.dq[n][k]  a == e.rs[n]  b == e.rs[k] IN
+               /\ Chk("result-composite-estimate-agrees-across-types-and-queries", a.cest = b.cest \/ d[1] <= 1)
+               /\ Chk("result-estimate-agrees-across-types-and-queries", a.est = b.est \/ d[2] <= 1)
+               /\ Chk("result-bounds-agree-across-types-and-queries", (a.lb[3] = b.lb[3] \/ d[3] <= 1) /\ (a.ub[3] = b.ub[3] \/ d[4] <= 1))
+          /\ SkUnchanged /\ UNCHANGED <<ug, uoo>>
 \* a result kept as a sketch of its own (fed to further unions): its contract value is the union's ghost at that moment
 TUResultAs == IsEvent("UResultAs") /\ LET e == Log[l]  o == un[e.u]  r == e.r IN
           /\ ResultChecks(e)
@@ -139,7 +160,7 @@ TUResultAs == IsEvent("UResultAs") /\ LET e == Log[l]  o == un[e.u]  r == e.r IN
                                top |-> o.top, empty |-> o.empty, big |-> o.big]) @@ obj
           /\ hist' = (e.dst :> [done |-> <<<<l>>>>, cur |-> <<>>]) @@ hist      \* an order of its own
           /\ sh' = ShSet((e.dst :> NoSh) @@ sh)
-          /\ UNCHANGED <<blob, ug>>
+          /\ UNCHANGED <<blob, ug, uoo>>
 \* the unions of a segment side by side: equal contract states => equal estimates, whatever the order of presentation,
 \* the observers called in between and the lvalue / rvalue choice
 TUCompare == IsEvent("UCompare") /\ LET e == Log[l] IN
@@ -154,10 +175,10 @@ TUCompare == IsEvent("UCompare") /\ LET e == Log[l] IN
                     /\ Chk("order-independent-result-estimate", a.rcest = b.rcest \/ e.dq[n][k][2] <= 1)
           \* get_composite_estimate of every union ran check_rebuild
           /\ ug' = UgSet([u \in DOMAIN ug |-> IF GSup(ug[u]) /\ \E n \in DOMAIN e.objs : e.objs[n].u = u THEN G!GCheckRebuild(ug[u]) ELSE ug[u]])
-          /\ UNCHANGED <<obj, hist, blob, sh, un>>
+          /\ UNCHANGED <<obj, hist, blob, sh, un, uoo>>
 
-TUInit == TInit /\ un = <<>> /\ ug = <<>>
-TUNext == TUBegin \/ (SkNext /\ UNCHANGED <<un, ug>>)
-          \/ TUNew \/ TUUpdate \/ TUItem \/ TUItemIgnored \/ TUReset \/ TUObs \/ TUEst \/ TUBadArg \/ TUResult \/ TUResultAs \/ TUCompare
+TUInit == TInit /\ un = <<>> /\ ug = <<>> /\ uoo = <<>>
+TUNext == TUBegin \/ (SkNext /\ UNCHANGED <<un, ug, uoo>>)
+          \/ TUNew \/ TUUpdate \/ TUItem \/ TUItemIgnored \/ TUReset \/ TUObs \/ TUEst \/ TUBadArg \/ TUResult \/ TUResults3 \/ TUResultAs \/ TUCompare
 TUSpec == TUInit /\ [][TUNext]_tuvars
 ====
